@@ -139,6 +139,10 @@ class ItemsOnly:
 
 
 def header_form(rng, h):
+    if rng.random() < .12:
+        # the header of a tile-compressed image as it is stored: NAXISn describe the binary table that holds the tiles,
+        # ZNAXISn give the size of the image
+        h = dict(h, znaxis1=h["naxis1"], znaxis2=h["naxis2"], naxis1=8, naxis2=int(h["naxis2"]))
     m = int(rng.integers(0, 3))
     if m == 0:
         return dict(h), "dict"
@@ -171,6 +175,8 @@ def on_init(call):
                 h[k] = h[k].decode()
     except Exception:
         return
+    if "znaxis1" in h and "znaxis2" in h:
+        h["naxis1"], h["naxis2"] = h["znaxis1"], h["znaxis2"]        # the image size (tile-compression convention)
     OBJ[id(obj)] = {"header": h, "calls": [], "obj": obj}
     if len(OBJ) > 40:
         OBJ.pop(next(iter(OBJ)))
